@@ -33,6 +33,7 @@ pub fn check() -> Check {
             Family { name: "traffic", gen: gen_traffic, run: run_traffic },
             Family { name: "byz_pkesk", gen: gen_pkesk, run: run_pkesk },
             Family { name: "byz_ecdh", gen: gen_ecdh, run: run_ecdh },
+            Family { name: "byz_sig_mpis", gen: gen_sig_mpis, run: run_sig_mpis },
             Family { name: "byz_octets", gen: gen_octets, run: run_octets },
         ],
         assumptions: vec![
@@ -710,6 +711,136 @@ fn run_ecdh(plan: &Value, rec: &mut Rec) {
     }
 }
 
+// ------------------------------------------------------------------ signature values of attacker-chosen MPI lengths
+
+const SIG_KEYS: [&str; 7] = ["edlegacy-v4", "p256-v4", "p384-v6", "p521-v4", "k256-v4", "dsa-v4", "rsa-v4"];
+const MPI_LENS: [usize; 29] = [0, 1, 2, 3, 19, 20, 21, 22, 31, 32, 33, 34, 47, 48, 49, 50, 64, 65, 66, 67, 68, 127, 128, 129, 130, 255, 256, 257, 258];
+
+fn gen_sig_mpis(_ctx: &GenCtx) -> Vec<Value> {
+    let mut plans = Vec::new();
+    for key in SIG_KEYS {
+        for style in ["high-bit", "low-bit", "zero-lead"] {
+            for l0 in MPI_LENS {
+                plans.push(json!({"key": key, "style": style, "l0": l0}));
+            }
+        }
+    }
+    plans
+}
+
+/// offset in a v4 / v6 signature packet body where the algorithm-specific signature value starts
+fn sig_value_offset(body: &[u8]) -> Option<usize> {
+    let wide = match *body.first()? {
+        4 => false,
+        6 => true,
+        _ => return None,
+    };
+    let mut at = 4;
+    for _ in 0..2 {
+        let n = if wide { u32::from_be_bytes(body.get(at..at + 4)?.try_into().ok()?) as usize } else { u16::from_be_bytes(body.get(at..at + 2)?.try_into().ok()?) as usize };
+        at += if wide { 4 } else { 2 } + n;
+    }
+    at += 2; // left 16 bits of the hash
+    if wide {
+        at += 1 + *body.get(at)? as usize; // salt
+    }
+    (at <= body.len()).then_some(at)
+}
+
+fn forged_mpi(len: usize, style: &str, key: u64) -> Vec<u8> {
+    let mut v = Planner::new(key, "sigmpi", len as u64).bytes(len);
+    if let Some(f) = v.first_mut() {
+        *f = match style {
+            "high-bit" => *f | 0x80,
+            "low-bit" => 1,
+            _ => 0, // not normalized: the bit count below still claims the full width
+        };
+    }
+    let bits = match (style, v.first()) {
+        (_, None) => 0,
+        ("zero-lead", _) => len * 8,
+        (_, Some(f)) => (len - 1) * 8 + (8 - f.leading_zeros() as usize),
+    };
+    let mut out = (bits as u16).to_be_bytes().to_vec();
+    out.extend_from_slice(&v);
+    out
+}
+
+fn run_sig_mpis(plan: &Value, rec: &mut Rec) {
+    seams::set_poke_after_error(true);
+    let k = keys::get(jstr(plan, "key"));
+    let style = jstr(plan, "style");
+    let l0 = jusize(plan, "l0");
+    let content = b"content under a signature whose value is re-made";
+    let hash = match k.name {
+        "p384-v6" => pgp::crypto::hash::HashAlgorithm::Sha384,
+        "p521-v4" => pgp::crypto::hash::HashAlgorithm::Sha512,
+        _ => pgp::crypto::hash::HashAlgorithm::Sha256,
+    };
+    let mut rng = SimRng::new(11, "c04sigmpi", false);
+    let Ok(sig) = DetachedSignature::sign_binary_data(&mut rng, &*k.secret, &Password::from(k.password), hash, &content[..]) else {
+        rec.count("skip:sign");
+        return;
+    };
+    let Ok(body) = sig.signature.to_bytes() else { return };
+    let Some(at) = sig_value_offset(&body) else {
+        rec.count("skip:value-offset");
+        return;
+    };
+    // the same signer inside a one-pass signed message
+    let hash_name = match k.name {
+        "p384-v6" => "sha384",
+        "p521-v4" => "sha512",
+        _ => "sha256",
+    };
+    let cfg = json!({"source":"bytes","compression":"none","signers":[{"key": k.name,"hash": hash_name}],"enc":{"k":"none"},"rng_key":1});
+    let msg = workload::build_reference(&cfg, content, 1, false).0.ok().and_then(|m| deframe(&m).ok().map(|pk| (m, pk)));
+    let single = k.name == "rsa-v4";
+    let l1s: Vec<usize> = match plan.get("only") {
+        Some(o) => vec![jusize(o, "l1")],
+        None if single => vec![0],
+        None => MPI_LENS.to_vec(),
+    };
+    rec.sample(json!({"key": k.name, "style": style, "first_mpi_octets": l0, "second_mpi_lengths": l1s.len()}));
+    for l1 in l1s {
+        let mut value = forged_mpi(l0, style, 1);
+        if !single {
+            value.extend_from_slice(&forged_mpi(l1, style, 2));
+        }
+        let mut h = Fnv::default();
+        h.str(&plan.to_string());
+        h.u64(l1 as u64);
+        rec.eval(h.0, true);
+        rec.count("fault:F-byz:signature-value-mpi-lengths");
+        let mut vplan = plan.clone();
+        vplan["only"] = json!({"l1": l1});
+        let forged = [&body[..at], &value[..]].concat();
+        let detached = Arc::new(frame(2, &forged, &LenForm::NewMinimal).unwrap());
+        let in_msg = msg.as_ref().and_then(|(m, pk)| {
+            let last = pk.last().filter(|p| p.tag == 2)?;
+            let at2 = sig_value_offset(&last.body)?;
+            let b2 = [&last.body[..at2], &value[..]].concat();
+            Some(Arc::new([&m[..last.start], &frame(2, &b2, &LenForm::NewMinimal)?[..]].concat()))
+        });
+        let verifiers = vec![k.name];
+        let r = guard(|| {
+            // (process() verifies detached signatures over its own fixed content: here over the signed one)
+            if let Ok(s) = DetachedSignature::from_bytes(&detached[..]) {
+                let _ = s.verify(&k.public, &content[..]);
+                let _ = s.signature.verify(&k.public.primary_key, &content[..]);
+                let _ = s.to_bytes();
+            }
+            process("sig", &detached, false, &Opener::None, &Sched::Full, 8192, &[], &Consumer::ReadLoop(vec![64]), &verifiers);
+            if let Some(m) = &in_msg {
+                process("msg", m, false, &Opener::None, &Sched::Full, 8192, &[], &Consumer::ReadLoop(vec![64]), &verifiers);
+            }
+        });
+        if let Err(pn) = r {
+            rec.violation("panic", &norm_loc(&pn.loc), format!("signature by {} with its value re-made from MPIs of {l0} and {l1} octets ({style}): {}", k.name, pn.msg), vplan);
+        }
+    }
+}
+
 // ------------------------------------------------------------------ one-octet parameter sweeps
 
 fn gen_octets(ctx: &GenCtx) -> Vec<Value> {
@@ -739,6 +870,17 @@ fn gen_octets(ctx: &GenCtx) -> Vec<Value> {
         }
     }
     // leading octets of every packet of a signed+compressed message, a certificate, a signature
+    // a message with two one-pass signers: the slots of the two signatures have to stay aligned whatever
+    // one of the packets says
+    for pkt in 0..5 {
+        for off in 0..8 {
+            plans.push(json!({"what": "msg2_packets", "pkt": pkt, "off": off, "key": *p.pick(&["ed25519-v4","ed25519-v6","p256-v4"]), "same": false}));
+            // (the same signer twice: every signature packet then fits every one-pass packet)
+            for key in ["ed25519-v4", "ed25519-v6", "p256-v4"] {
+                plans.push(json!({"what": "msg2_packets", "pkt": pkt, "off": off, "key": key, "same": true}));
+            }
+        }
+    }
     for what in ["msg_packets", "cert_packets", "sig_packet"] {
         for pkt in 0..6 {
             for off in 0..8 {
@@ -781,6 +923,13 @@ fn run_octets(plan: &Value, rec: &mut Rec) {
             let Ok(inner) = inner else { return };
             (inner, jusize(plan, "pkt"), Opener::None, "msg")
         }
+        "msg2_packets" => {
+            let second = if jbool(plan, "same") { jstr(plan, "key") } else if jstr(plan, "key") == "p256-v4" { "ed25519-v4" } else { "p256-v4" };
+            let cfg = json!({"source":"bytes","compression":"none","signers":[{"key": jstr(plan,"key"),"hash":"sha256"},{"key": second,"hash": if jbool(plan, "same") { "sha256" } else { "sha512" }}],"enc":{"k":"none"},"rng_key":1});
+            let (m, _) = workload::build_reference(&cfg, b"octet sweep payload, two signers", 1, false);
+            let Ok(m) = m else { return };
+            (m, jusize(plan, "pkt"), Opener::None, "msg")
+        }
         "gnupg_aead" => {
             // LibrePGP draft test vector: SKESK v5 (AES128/OCB, iterated S2K) + OCB encrypted data, password "password"
             let v = hex::decode(concat!(
@@ -812,7 +961,10 @@ fn run_octets(plan: &Value, rec: &mut Rec) {
         rec.count("skip:offset-beyond-body");
         return;
     }
-    let verifiers: Vec<&'static str> = vec![keys::get(if jstr(plan, "key").is_empty() { "ed25519-v4" } else { jstr(plan, "key") }).name];
+    let mut verifiers: Vec<&'static str> = vec![keys::get(if jstr(plan, "key").is_empty() { "ed25519-v4" } else { jstr(plan, "key") }).name];
+    if what == "msg2_packets" && !jbool(plan, "same") {
+        verifiers.push(if jstr(plan, "key") == "p256-v4" { "ed25519-v4" } else { "p256-v4" });
+    }
     rec.sample(json!({"what": what, "packet": pkt_index, "tag": p.tag, "offset": base_off + off, "values": vals.len()}));
     for val in vals {
         let mut body = p.body.clone();
